@@ -10,6 +10,21 @@
 EXTENDS Naturals, Sequences, FiniteSets
 
 NameTable == <<
+  [p |-> "Fa", g |-> "Fa", s |-> "fa"],
+  [p |-> "Fb", g |-> "Fb", s |-> "fb"],
+  [p |-> "Fc", g |-> "Fc", s |-> "fc"],
+  [p |-> "Fd", g |-> "Fd", s |-> "fd"],
+  [p |-> "Fe", g |-> "Fe", s |-> "fe"],
+  [p |-> "Ff", g |-> "Ff", s |-> "ff"],
+  [p |-> "Fg", g |-> "Fg", s |-> "fg"],
+  [p |-> "Fh", g |-> "Fh", s |-> "fh"],
+  [p |-> "Fi", g |-> "Fi", s |-> "fi"],
+  [p |-> "Fj", g |-> "Fj", s |-> "fj"],
+  [p |-> "Fk", g |-> "Fk", s |-> "fk"],
+  [p |-> "Fl", g |-> "Fl", s |-> "fl"],
+  [p |-> "Fm", g |-> "Fm", s |-> "fm"],
+  [p |-> "Fn", g |-> "Fn", s |-> "fn"],
+  [p |-> "Fo", g |-> "Fo", s |-> "fo"],
   [p |-> "Str",      g |-> "Str",      s |-> "str"],
   [p |-> "Num",      g |-> "Num",      s |-> "num"],
   [p |-> "Flt",      g |-> "Flt",      s |-> "flt"],
@@ -67,7 +82,7 @@ Snake(p) == IF p \in PoolNames THEN NameTable[NameRow(p)].s ELSE p
 \* Go's byte order on the Go names used for sorting (sort.Slice by Field.Name); "active" is the
 \* placeholder.  Upper-case letters sort before lower-case ones.
 GoNameOrder == << "Alpha", "Bad", "BranchA", "BranchB", "BranchC", "BranchD", "BranchE", "Cust", "Custs",
-  "Dict", "Dur", "Durs", "Empty", "Extra", "Flag", "Flt", "FooBar", "Grp", "Grp2", "Inner", "Items", "Kind",
+  "Dict", "Dur", "Durs", "Empty", "Extra", "Fa", "Fb", "Fc", "Fd", "Fe", "Ff", "Fg", "Fh", "Fi", "Fj", "Fk", "Fl", "Flag", "Flt", "Fm", "Fn", "Fo", "FooBar", "Grp", "Grp2", "Inner", "Items", "Kind",
   "Leaf", "LowerGrp", "LowerNum", "Mid", "Nothing", "Num", "Other", "Outer", "Poison", "Raw", "Root", "Str",
   "Sub", "Sub2", "Subs", "Tags", "Third", "When", "Whens", "Zed", "active" >>
 
